@@ -186,7 +186,13 @@ fn exec_inner(c: &Case) -> Result<u64, String> {
             if cut < c.len {
                 h.update(&g.slice()[cut..]);
             }
-            let got = h.finalize_box();
+            // the digest is written into caller-provided memory that abuts unmapped pages as well
+            let mut og = GuardBuf::new(&vec![0x33u8; id.out], c.place);
+            h.finalize_into_slice(og.slice_mut());
+            let got = og.slice().to_vec();
+            if !og.canaries_ok() {
+                return Err("finalize_into wrote outside the output array".into());
+            }
             // under Miri (where the point is UB detection) the slow models are replaced by the
             // implementation's own digest of an ordinary aligned copy of the message
             let exp = if cfg!(miri) && !matches!(id.fam, api::Fam::Blake) { id.oneshot(&msg) } else { id.reference(&msg) };
